@@ -35,7 +35,7 @@ pub enum BOp {
     UpdateLen(u64),
 }
 
-pub const TEMPLATES: [&str; 4] = ["a\tb {msg}", "{k}|{prefix}", "{prefix}|{msg}", "{msg}\t!"];
+pub const TEMPLATES: [&str; 5] = ["a\tb {msg}", "{k}|{prefix}", "{prefix}|{msg}", "{msg}\t!", ">\t{ \"m\":\t\"{msg}\" }"];
 
 pub fn style(i: usize) -> ProgressStyle {
     ProgressStyle::with_template(TEMPLATES[i]).unwrap().with_key("k", |_: &ProgressState, w: &mut dyn Write| {
@@ -214,6 +214,7 @@ impl RefState {
             0 => format!("{} {}", self.expand("a\tb"), msg),
             1 => format!("{}|{}", self.expand("x\ty\tz"), prefix),
             2 => format!("{}|{}", prefix, msg),
+            4 => format!("{}{}\" }}", self.expand(">\t{ \"m\":\t\""), msg),
             _ => format!("{}{}", msg, self.expand("\t!")),
         };
         line.split('\n').map(|s| s.to_string()).collect()
